@@ -148,8 +148,10 @@ func genFields(r *vh.Rand, lo, hi int, reserved ...string) []uField {
 
 func ptr(s string) *string { return &s }
 
-func genEntity(r *vh.Rand) *entityDecl {
-	d := &entityDecl{Pkg: vh.Pick(r, pkgNames)}
+func genEntity(r *vh.Rand) *entityDecl { return genEntityOpt(r, false, "") }
+
+func genEntityOpt(r *vh.Rand, second bool, forcedName string) *entityDecl {
+	d := &entityDecl{Pkg: vh.Pick(r, pkgNames), second: second}
 	switch r.Intn(4) {
 	case 0, 1:
 		d.Name = vh.Pick(r, entNames)
@@ -157,6 +159,9 @@ func genEntity(r *vh.Rand) *entityDecl {
 		d.Name = genIdent(r, r.Intn(3))
 	default:
 		d.Name = genIdent(r, 3)
+	}
+	if forcedName != "" {
+		d.Name = forcedName
 	}
 	if r.Chance(15) {
 		d.BaseURL = vh.Pick(r, []string{"x/y", "custom", "a/b/c_d", "v1/things"})
@@ -288,6 +293,44 @@ func genEntity(r *vh.Rand) *entityDecl {
 		}
 		d.Summaries = append(d.Summaries, eSummary{Name: name, Fields: genFields(r, 0, 3, "upsert")})
 	}
+	// objects declared in the entity block, and references to them (or to the entity's own
+	// generated schemas) from data / event / command / summary fields
+	if r.Chance(35) {
+		sn := nameSet{}
+		for k := r.Range(1, 2); k > 0; k-- {
+			name := sn.fresh(func() string { return vh.Pick(r, []string{"Address", "Money", "Tag", "Meta", "Dimensions", "Contact"}) + d.schemaSuffix() }, rawKey)
+			sc := eSchema{Name: name, Fields: genFields(r, 0, 3)}
+			if len(d.Schemas) > 0 && r.Chance(40) {
+				sc.Fields = append(sc.Fields, uField{Name: "prev", Obj: d.Schemas[0].Name, PType: 11, J5Kind: "object"})
+			}
+			d.Schemas = append(d.Schemas, sc)
+		}
+		targets := []string{strcase.ToCamel(d.Name) + "Keys", strcase.ToCamel(d.Name) + "Data"}
+		for _, sc := range d.Schemas {
+			targets = append(targets, sc.Name, sc.Name)
+		}
+		ref := func(name string) uField {
+			return uField{Name: name, Obj: vh.Pick(r, targets), PType: 11, J5Kind: "object", Required: r.Chance(20), Bang: r.Bool()}
+		}
+		if r.Chance(60) {
+			d.Data = append(d.Data, ref("refField"))
+		}
+		if len(d.Events) > 0 && r.Chance(50) {
+			d.Events[0].Fields = append(d.Events[0].Fields, ref("refInEvent"))
+		}
+		if len(d.Summaries) > 0 && r.Chance(50) {
+			d.Summaries[0].Fields = append(d.Summaries[0].Fields, ref("refInSummary"))
+		}
+		if len(d.Commands) > 0 && len(d.Commands[0].Methods) > 0 && r.Chance(50) {
+			m := &d.Commands[0].Methods[0]
+			if m.Verb != 1 { // an object cannot be a query parameter of a GET
+				m.Request = append(m.Request, ref("refInRequest"))
+			}
+			if !m.NoResponse {
+				m.Response = append(m.Response, ref("refInResponse"))
+			}
+		}
+	}
 	if r.Chance(50) {
 		q := &eQuery{EventsInGet: r.Bool()}
 		for _, s := range d.Status {
@@ -300,13 +343,21 @@ func genEntity(r *vh.Rand) *entityDecl {
 	return d
 }
 
+// schemaSuffix keeps entity-level schema names apart when a file declares two entities.
+func (d *entityDecl) schemaSuffix() string {
+	if d.second {
+		return "B"
+	}
+	return ""
+}
+
 func squash(s string) string { return strings.ToLower(strings.ReplaceAll(s, "_", "")) }
 
 // genSecond draws a second entity for the same file whose generated names cannot collide
 // with the first one's.
 func genSecond(r *vh.Rand, first *entityDecl) *entityDecl {
 	for {
-		d := genEntity(r)
+		d := genEntityOpt(r, true, "")
 		a, b := squash(first.Name), squash(d.Name)
 		if a == "" || b == "" || strings.HasPrefix(a, b) || strings.HasPrefix(b, a) {
 			continue
@@ -343,6 +394,11 @@ func genMalformed(r *vh.Rand) (*entityDecl, string) {
 			k.Primary, k.Foreign, k.Optional, k.Required = true, nil, true, false
 		}
 		return d, "optional-required"
+	}
+	if r.Chance(20) {
+		// an object reference that names nothing: resolveType fails
+		d.Data = append(d.Data, uField{Name: "dangling", Obj: vh.Pick(r, []string{"NoSuchType", strcase.ToCamel(d.Name) + "Stat", "Addres"}), PType: 11, J5Kind: "object"})
+		return d, "dangling-reference"
 	}
 	if r.Chance(25) {
 		// visitServiceMethodNode: a ":name" path part must be a request field
@@ -401,7 +457,7 @@ const c17Shard = 25
 func runC17(cfg *vh.Config) error {
 	log.SetOutput(io.Discard) // the compiler logs every walker error
 	res := vh.NewResult("C17", cfg.Seed)
-	res.Rule = "entity declarations: name casings (fixed list incl. trailing capitals/acronyms/digits/underscores + generated identifiers), 1-4 keys (key-typed id62/uuid/plain with primary/tenant, or scalar) x shard flag x required, 0-4 data fields over 9 scalar types + keys, 1-4 statuses (+ the UNSPECIFIED-first and prefixed-name edge cases), foreign keys, optional fields, methods without response, 0-3 events with 0-3 fields, 0-2 command services (default/named, base path, 0-2 methods with path parameters), 0-2 summaries (default/named), optional query settings; 20% of the files declare two entities; malformed: unknown default status, duplicate summary, optional+required field, path parameter that is not a request field; plus the strcase stream; non-trivial = distinct declaration text"
+	res.Rule = "entity declarations: name casings (fixed list incl. trailing capitals/acronyms/digits/underscores + generated identifiers), 1-4 keys (key-typed id62/uuid/plain with primary/tenant, or scalar) x shard flag x required, 0-4 data fields over 9 scalar types + keys, 1-4 statuses (+ the UNSPECIFIED-first and prefixed-name edge cases), foreign keys, optional fields, methods without response, objects declared in the entity block and object references to them / to the generated Keys and Data, 0-3 events with 0-3 fields, 0-2 command services (default/named, base path, 0-2 methods with path parameters), 0-2 summaries (default/named), optional query settings; 20% of the files declare two entities; malformed: unknown default status, duplicate summary, optional+required field, path parameter that is not a request field, dangling object reference; plus the strcase stream; non-trivial = distinct declaration text"
 	cf := &vh.CasesFile{
 		Header: "From Coq Require Import String List NArith.\nFrom J5V.lib Require Import Outcome.\nFrom J5V.model Require Import Entity EntityCorr.",
 		Type:   "c17case",
@@ -415,8 +471,7 @@ func runC17(cfg *vh.Config) error {
 	var kinds []string
 	// every fixed name once with a small fixed shape, then random declarations
 	for _, n := range entNames {
-		d := genEntity(r.Fork("fixed:" + n))
-		d.Name = n
+		d := genEntityOpt(r.Fork("fixed:"+n), false, n)
 		decls = append(decls, &fileDecl{Ents: []*entityDecl{d}})
 		kinds = append(kinds, "fixed-name")
 	}
@@ -447,7 +502,7 @@ func runC17(cfg *vh.Config) error {
 		}
 		out := compileEntity(d)
 		in := map[string]any{"j5s": text}
-		malformed := kinds[i] == "unknown-default-status" || kinds[i] == "duplicate-summary" || kinds[i] == "optional-required" || kinds[i] == "missing-path-field"
+		malformed := kinds[i] == "unknown-default-status" || kinds[i] == "duplicate-summary" || kinds[i] == "optional-required" || kinds[i] == "missing-path-field" || kinds[i] == "dangling-reference"
 		if out.panicked != nil {
 			res.Fail(vh.Failure{Case: caseNo, Stream: "entity", Sig: "C17 compiler panic on entity declaration", Clause: "entity expansion is total", Input: in, Got: fmt.Sprint(out.panicked)})
 			caseNo++
